@@ -105,6 +105,18 @@ def run_parallel(binary, lines, nproc=None, per_case_timeout=30.0, leaks=True, c
     return results, faults, leaky
 
 
+_re_fill = None
+
+
+def line_cost(line):
+    """Approximate bytes a harness line makes the replayer touch (fill chunks + explicit hex)."""
+    global _re_fill
+    if _re_fill is None:
+        import re
+        _re_fill = re.compile(r"[f,:L](\d+)\.")
+    return sum(int(x) for x in _re_fill.findall(line)) + len(line) // 2
+
+
 def tlc_gen(module, constants, inv="EmitInv", what=None, timeout=1500, env=None, workers=None, simulate=None, depth=None):
     """Run a generator/validator spec with constants given as cfg text; InfraError unless clean."""
     cfgt = "CONSTANTS\n%s\nINIT Init\nNEXT Next\nINVARIANT %s\nCHECK_DEADLOCK FALSE\n" % (constants, inv)
